@@ -524,6 +524,10 @@ func genPlainOp(g *gen, c *Cfg, n int) Op {
 
 func genStickyPlan(seed uint64, tier string) *Plan {
 	g := newGen(seed)
+	if g.chance(6) {
+		// dialogs established by TCP backends over connections the proxy opened (tcpsticky.go)
+		return genTCPStickyPlan(seed, tier)
+	}
 	if g.chance(10) {
 		// pins while the backend set changes by name resolution: a dialog stays with its backend also after that
 		// backend was withdrawn from the rotation (the membership world of C19, judged by C04's rule)
@@ -708,6 +712,9 @@ func splitID(id string) (string, string) {
 func execSticky(t *testing.T, p *Plan) *Result {
 	if p.Variant == "membership" {
 		return execMembership(t, p)
+	}
+	if p.Variant == "tcp-backends" {
+		return execTCPSticky(t, p)
 	}
 	r := &Result{}
 	var d *dlgWorld
